@@ -201,6 +201,9 @@ func nonNegAtom(a *Atom) bool {
 	case "len", "val", "Len", "round8", "wrap", "min":
 		return true
 	case "opq":
+		if _, bounded := atomMax[a.Key()]; bounded {
+			return true // values with a declared range are unsigned
+		}
 		return strings.HasPrefix(a.Path, "len(") // the length of a slice the interpreter cannot name
 	case "sum":
 		return a.Sub[0].NonNeg()
